@@ -2,12 +2,15 @@ package props
 
 import (
 	"fmt"
+	"os"
+	"path/filepath"
 	"strconv"
 	"strings"
 
 	"github.com/vicanso/pike/cache"
 	"github.com/vicanso/pike/config"
 	"github.com/vicanso/pike/server"
+	"github.com/vicanso/pike/store"
 
 	"pikemc/env"
 	"pikemc/oracle"
@@ -302,6 +305,69 @@ func init() {
 		pre := 2
 		if c.Thorough() {
 			pre = 3
+		}
+		// a start while the store directory is still held by the instance being replaced (or a second instance was pointed
+		// at it): pike starts and serves, from memory only
+		if c.Want("start-while-store-is-locked") && c.Shard == 2%c.NShards {
+			st := c.Stat("start-while-store-is-locked", "enumeration")
+			st.Bounds = "real badger directory held open by another store instance; pike configured with it, history {fetch k1, hit k1, fetch k2, purge k1, fetch k1}: every request answered 200 with its own body"
+			dir := filepath.Join(os.Getenv("PIKEMC_WORK"), fmt.Sprintf("c08-locked-%d", os.Getpid()))
+			if os.Getenv("PIKEMC_WORK") == "" {
+				dir = filepath.Join("/verif/.work", fmt.Sprintf("c08-locked-%d", os.Getpid()))
+			}
+			os.RemoveAll(dir)
+			holder, herr := store.NewStore("badger://" + dir)
+			if herr != nil || holder == nil {
+				c.Violation("start-while-store-is-locked", "harness-badger", fmt.Sprint(herr), nil, nil, nil)
+			} else {
+				cfg := env.BasicConfig(config.CacheConfig{Store: "badger://" + dir + "/"}) // (another spelling: pike keeps one store object per URL)
+				e := getEnv(cfg, "c08-locked")
+				vsched.GuardReset()
+				freshCaches(cfg)
+				vtime.Set(vtime.Base)
+				e.Respond = func(oc *env.OriginCall) env.OriginResp { return env.Cacheable(oc, 60, "p") }
+				e.Events()
+				want := []string{"fetching", "hit", "fetching", "", "fetching"}
+				for i, step := range []string{"/k1", "/k1", "/k2", "purge", "/k1"} {
+					if step == "purge" {
+						func() {
+							defer func() {
+								if p := recover(); p != nil {
+									c.Violation("start-while-store-is-locked", "purge-panics", fmt.Sprint(p), nil, nil, nil)
+								}
+							}()
+							cache.RemoveHTTPCache("", []byte("GET a.com /k1"))
+						}()
+						continue
+					}
+					var r *env.Result
+					w := vsched.Guarded(vtime.Get(), func() { r = e.Do(env.Req{URI: step, Rid: fmt.Sprintf("r%d", i)}) })
+					st.Execs++
+					kase := map[string]interface{}{"step": i}
+					switch {
+					case w != "" || r == nil:
+						c.Violation("start-while-store-is-locked", "request-blocks-forever", fmt.Sprintf("step %d (%s): %s", i, step, w), nil, kase, nil)
+					case r.Panic != "":
+						c.Violation("start-while-store-is-locked", "panic-with-locked-store", fmt.Sprintf("step %d (%s): %s", i, step, trunc([]byte(r.Panic))), nil, kase, nil)
+					case r.Status != 200:
+						c.Violation("start-while-store-is-locked", fmt.Sprintf("status-%d-with-locked-store", r.Status), fmt.Sprintf("step %d (%s): %s", i, step, trunc(r.Body)), nil, kase, nil)
+					case r.XStatus != want[i]:
+						c.Violation("start-while-store-is-locked", "memory-caching-lost-with-locked-store", fmt.Sprintf("step %d (%s): labelled %s, a memory-only cache answers %s", i, step, r.XStatus, want[i]), nil, kase, nil)
+					}
+					if w != "" {
+						break
+					}
+				}
+				if v := analyze(e.Events()).selfCheck(); v != nil {
+					c.Violation("start-while-store-is-locked", v.Sig, v.Msg, nil, nil, nil)
+				}
+				holder.Close()
+				procEnv = nil
+				vsched.GuardReset()
+			}
+			os.RemoveAll(dir)
+			st.States, st.Transitions, st.Nontrivial = st.Execs, st.Execs, st.Execs
+			st.NOutcomes = int(st.Execs)
 		}
 		// one key whose origin changes its mind: a marker written over an entry that held a response obeys its own period
 		// after a restart (stores that do / do not expire records themselves)
